@@ -953,6 +953,12 @@ def compile_main(raw_args: Optional[Sequence[str]] = None) -> None:
                 all_extra_index_urls[url] = None
             args.extra_index_urls = list(all_extra_index_urls)
 
+            all_find_links = OrderedDict(zip(args.find_links, repeat(None)))
+            for link in req_args.find_links:
+                all_find_links[link] = None
+            args.find_links = list(all_find_links)
+            args.no_index = args.no_index or req_args.no_index
+
             for editable_source in req_args.editable_sources:
                 input_reqs.append(_create_dist_from_path(editable_source))
             args.sources += req_args.editable_sources
